@@ -74,7 +74,7 @@ Definition sdb_inv (b : sdb) : Prop :=
 Definition sdb_adds (b : sdb) (l : list item) : res sdb :=
   fold_left (fun r it => do b <- r; do x <- sdb_add b it; Ok (fst x)) l (Ok b).
 
-Definition last_item_seq (l : list item) : Z := match rev l with i :: _ => i_seq i | [] => 0 end.
+Definition last_item_seq (l : list item) : Z := last (map i_seq l) 0.
 
 (** list-level meaning of [segDataBuffer.add] *)
 Definition spec_badd (size : Z) (l : list item) (it : item) : list item * bool :=
